@@ -76,9 +76,25 @@ class Transport(object):
         self.stack.broadcastEvent(YowLayerEvent(YowAuthenticationProtocolLayer.EVENT_AUTH, passive=passive))
 
     def disconnected(self):
+        """The connection went down: announced the way the network layer does (detached: its direct upper neighbour handles
+        the event at once, the layers above when the stack's loop runs - here right afterwards, in the caller)."""
         from yowsup.layers import YowLayerEvent
         from yowsup.layers.network import YowNetworkLayer
-        self.stack.emitEvent(YowLayerEvent(YowNetworkLayer.EVENT_STATE_DISCONNECTED, reason="test"))
+        self.wire.emitEvent(YowLayerEvent(YowNetworkLayer.EVENT_STATE_DISCONNECTED, reason="test", detached=True))
+        self.pump_deferred()
+
+    def pump_deferred(self):
+        import queue
+        from yowsup.stacks import YowStack
+        q = YowStack._YowStack__detachedQueue
+        n = 0
+        while True:
+            try:
+                cb = q.get(False)
+            except queue.Empty:
+                return n
+            cb()
+            n += 1
 
     def deliver(self, data):
         """Hand bytes to the harness's network thread (the only thread that calls into the stack from below)."""
